@@ -9,7 +9,9 @@
      parse                  OrsoTypes.<m>.parse (C07), a parameter; ser_ext: orjson's output for non-native leaves, a parameter
      persistable parse c    what the dictionary form can carry (see Proofs/C16.v): member type / element type /
                             disposition, DECIMAL with its parameters, the free attributes hold no enum member or
-                            Expectation object, a truthy default is a fixed point of its type's parse
+                            Expectation object, the default of a typed column is None or a fixed point of its type's
+                            parse under the column's own length / precision / scale / element type (an untyped column
+                            keeps any default untouched)
      json_persistable       the same for the JSON form: every free attribute is written and read back as itself,
                             the default's JSON form parses back to the default
      untyped c              the type is the placeholder OrsoTypes._MISSING_TYPE
@@ -38,32 +40,32 @@ Print Assumptions C16_type_table_is_the_one_from_name_uses.
    PROVED: rebuilding a column from its dictionary yields a column equal to the original in every declared
    attribute; only the type attribute of an UNTYPED column is excluded (known finding F-C16-4b). *)
 Theorem C16_column_dict_round_trip_partial :
-  forall (parse : str -> pv -> result pv) (cls fresh : str) (c : column),
+  forall (parse : str -> params -> pv -> result pv) (cls fresh : str) (c : column),
   persistable parse c ->
   exists c', init parse cls fresh (to_dict_col c) = Ok c' /\
              (forall f, f <> FType -> get f c' = get f c) /\ (untyped c = false -> c' = c).
 Proof. exact column_dict_round_trip. Qed.
 Print Assumptions C16_column_dict_round_trip_partial.
 
-(* from_dict (to_dict s): the schema's name, aliases and primary key come back, and the columns one by one as above. *)
+(* from_dict (to_dict s): the schema's name, aliases, primary key and four statistics come back, and the columns one
+   by one as above.  [plain_top s]: the schema's own attributes hold no enum member. *)
 Theorem C16_schema_dict_round_trip_partial :
-  forall (parse : str -> pv -> result pv) (fresh : nat -> str) (s : schema),
+  forall (parse : str -> params -> pv -> result pv) (fresh : nat -> str) (s : schema),
   Forall (persistable parse) (s_columns s) ->
-  conv (s_name s) = s_name s -> conv (s_aliases s) = s_aliases s -> conv (s_pk s) = s_pk s ->
+  plain_top s ->
   exists s', from_dict parse fresh (to_dict s) = Ok s' /\
              s_name s' = s_name s /\ s_aliases s' = s_aliases s /\ s_pk s' = s_pk s /\
+             s_rcm s' = s_rcm s /\ s_rce s' = s_rce s /\ s_dsm s' = s_dsm s /\ s_dse s' = s_dse s /\
              Forall2 same_but_untyped_type (s_columns s') (s_columns s) /\
              s_columns s' = map restored (s_columns s).
 Proof. exact schema_dict_round_trip. Qed.
 Print Assumptions C16_schema_dict_round_trip_partial.
 
-(* ... hence a schema of typed columns (whose own statistics are unset, see C16_schema_statistics_refuted)
-   comes back as the very same object, field by field. *)
+(* ... hence a schema of typed columns comes back as the very same object, field by field, statistics included. *)
 Theorem C16_schema_round_trip_exact_partial :
-  forall (parse : str -> pv -> result pv) (fresh : nat -> str) (s : schema),
+  forall (parse : str -> params -> pv -> result pv) (fresh : nat -> str) (s : schema),
   Forall (persistable parse) (s_columns s) -> Forall (fun c => untyped c = false) (s_columns s) ->
-  conv (s_name s) = s_name s -> conv (s_aliases s) = s_aliases s -> conv (s_pk s) = s_pk s ->
-  s_rcm s = PNone -> s_rce s = PNone -> s_dsm s = PNone -> s_dse s = PNone ->
+  plain_top s ->
   from_dict parse fresh (to_dict s) = Ok s.
 Proof. exact schema_round_trip_exact. Qed.
 Print Assumptions C16_schema_round_trip_exact_partial.
@@ -72,7 +74,7 @@ Print Assumptions C16_schema_round_trip_exact_partial.
    PROVED: to_json succeeds and from_json rebuilds a column equal to the original in every declared attribute,
    the type attribute of untyped columns excluded (F-C16-4b). *)
 Theorem C16_column_json_round_trip_partial :
-  forall (parse : str -> pv -> result pv) (ser_ext : atom -> result jval) (fresh : str) (c : column),
+  forall (parse : str -> params -> pv -> result pv) (ser_ext : atom -> result jval) (fresh : str) (c : column),
   json_persistable parse ser_ext c ->
   exists j c', to_json ser_ext c = Ok j /\ from_json parse fresh j = Ok c' /\
                (forall f, f <> FType -> get f c' = get f c) /\ (untyped c = false -> c' = c).
@@ -91,7 +93,7 @@ Print Assumptions C16_native_values_survive_json.
 (* Flattening any column object (the attributes of whatever column class) keeps identity, name, type, precision,
    scale, element type, nullability, default, aliases, description and the three statistics. *)
 Theorem C16_to_flatcolumn_keeps :
-  forall (parse : str -> pv -> result pv) (fresh : str) (c : column) (s : str),
+  forall (parse : str -> params -> pv -> result pv) (fresh : str) (c : column) (s : str),
   c_name c = PA (AText s) -> normalised parse c ->
   exists c', to_flatcolumn parse fresh c = Ok c' /\ forall f, In f flat_kept -> get f c' = get f c.
 Proof. exact flatten_keeps. Qed.
@@ -106,7 +108,7 @@ Print Assumptions C16_flat_kept_are_the_listed_attributes.
 (* Behaviour: the restored schema accepts and rejects exactly the same records (validate as modelled and proved
    in C05, on the view validate has of a column: name, type or 'untyped', nullability) - untyped columns included. *)
 Theorem C16_restored_schema_validates_alike :
-  forall (parse : str -> pv -> result pv) (fresh : nat -> str) (s s' : schema) (key : pv -> N) (r : Model.C05.record),
+  forall (parse : str -> params -> pv -> result pv) (fresh : nat -> str) (s s' : schema) (key : pv -> N) (r : Model.C05.record),
   Forall (persistable parse) (s_columns s) ->
   from_dict parse fresh (to_dict s) = Ok s' ->
   Model.C05.validate (proj_schema key s') r = Model.C05.validate (proj_schema key s) r.
@@ -115,7 +117,7 @@ Print Assumptions C16_restored_schema_validates_alike.
 
 (* ... and reports the same description for every column - untyped columns included. *)
 Theorem C16_restored_schema_describes_alike :
-  forall (parse : str -> pv -> result pv) (fresh : nat -> str) (s s' : schema),
+  forall (parse : str -> params -> pv -> result pv) (fresh : nat -> str) (s s' : schema),
   Forall (persistable parse) (s_columns s) ->
   from_dict parse fresh (to_dict s) = Ok s' ->
   map describe (s_columns s') = map describe (s_columns s).
@@ -123,7 +125,7 @@ Proof. exact restored_describes_alike. Qed.
 Print Assumptions C16_restored_schema_describes_alike.
 
 (* ---------------- witnesses ---------------- *)
-Definition P0 : str -> pv -> result pv := fun _ v => Ok v.
+Definition P0 : str -> params -> pv -> result pv := fun _ _ v => Ok v.
 Definition T (s : string) : pv := PA (AText (txt s)).
 Definition plain_column (name : string) (ty elt : pv) : column :=
   mkcolumn (T name) PNone ty elt PNone PNone (PL []) (PA (ABool true)) (PL []) (T "0123456789abcdef") PNone PNone PNone
@@ -142,24 +144,16 @@ Proof.
       * left. reflexivity.
       * intros H. vm_compute in H. discriminate.
     + intros f Hf. destruct f; try discriminate Hf; reflexivity.
-    + vm_compute. split; reflexivity.
+    + vm_compute. reflexivity.
     + reflexivity.
   - vm_compute. reflexivity.
   - vm_compute. discriminate.
 Qed.
 Print Assumptions C16_untyped_type_refuted.
 
-(* candidate F-C16-6: from_dict does not restore the schema's own statistics. *)
-Theorem C16_schema_statistics_refuted :
-  exists s s', from_dict P0 (fun _ => []) (to_dict s) = Ok s' /\ s_rcm s' <> s_rcm s.
-Proof.
-  exists (mkschema (T "rel") (PL []) [plain_column "a" (PA (ATy (txt "INTEGER"))) PNone] PNone (PA (AInt 5)) PNone PNone PNone).
-  eexists. split; [vm_compute; reflexivity | vm_compute; discriminate].
-Qed.
-Print Assumptions C16_schema_statistics_refuted.
-
-(* candidate F-C16-7: an Expectation object comes back as its dictionary. *)
-Theorem C16_expectation_objects_refuted :
+(* OBSERVATION, outside the property (expectations is not among the attributes it enumerates): an Expectation object
+   comes back as its dictionary. *)
+Example C16_observation_expectation_objects :
   exists c c', wf_col c /\ init P0 class_flat [] (to_dict_col c) = Ok c' /\ c_expectations c' <> c_expectations c.
 Proof.
   exists (mkcolumn (T "e") PNone (PA (ATy (txt "INTEGER"))) PNone PNone PNone (PL []) (PA (ABool true))
@@ -174,9 +168,8 @@ Proof.
   - vm_compute. reflexivity.
   - vm_compute. discriminate.
 Qed.
-Print Assumptions C16_expectation_objects_refuted.
 
-(* candidate F-C16-8: an ARRAY column without element type comes back with element type VARCHAR. *)
+(* F-C16-8 (known): an ARRAY column without element type comes back with element type VARCHAR. *)
 Theorem C16_array_without_element_refuted :
   exists c c', init P0 class_flat [] (to_dict_col c) = Ok c' /\ c_elt c = PNone /\ c_elt c' <> c_elt c.
 Proof.
@@ -193,8 +186,8 @@ Definition price : column :=
   mkcolumn (T "price") (PA (ADec 15 (-1))) (PA (ATy (txt "DECIMAL"))) PNone (T "unit price") (PA (ADisp (txt "AGE")))
            (PL [AText (txt "cost")]) (PA (ABool false)) (PL [AExp false true 7]) (T "0123456789abcdef") PNone
            (PA (AInt 10)) (PA (AInt 2)) (PL [AText (txt "t1")]) (PA (AInt 99)) (PA (AFloat 4609434218613702656)) (PA (AInt 0)).
-Definition P1 : str -> pv -> result pv :=
-  fun _ v => if pv_eqb v (T "1.5") then Ok (PA (ADec 15 (-1))) else Ok v.
+Definition P1 : str -> params -> pv -> result pv :=
+  fun _ _ v => if pv_eqb v (T "1.5") then Ok (PA (ADec 15 (-1))) else Ok v.
 Definition S1 : atom -> result jval :=
   fun a => if atom_eqb a (ADec 15 (-1)) then Ok (JText (txt "1.5")) else Raise TypeError.
 
@@ -216,7 +209,7 @@ Proof.
   split; [|repeat split; vm_compute; reflexivity].
   split; [exact price_wf|]. split; [|split].
   - intros f Hf. destruct f; try discriminate Hf; reflexivity.
-  - vm_compute. split; [intros _ m H; inversion H; reflexivity | intros H; discriminate].
+  - vm_compute. split; [intros H; discriminate | intros _ m H; inversion H; reflexivity].
   - reflexivity.
 Qed.
 
@@ -231,8 +224,8 @@ Proof.
     + intros f Hf H1 H2. destruct f; try discriminate Hf; try (contradiction H1; reflexivity); try (contradiction H2; reflexivity);
         (apply native_stable; cbn; auto) || (apply native_list_stable; repeat constructor).
     + eexists. split; [vm_compute; reflexivity|]. vm_compute.
-      split; [intros _ m H; inversion H; reflexivity | intros H; discriminate].
+      split; [intros H; discriminate | intros _ m H; inversion H; reflexivity].
     + eexists. split; vm_compute; reflexivity.
   - unfold normalised. split; [left; eexists; reflexivity|]. split; [left; reflexivity|].
-    split; [intros _; split; reflexivity|]. intros _. eexists. split; reflexivity.
+    split; [intros _; split; reflexivity|]. intros _ m H _. inversion H. reflexivity.
 Qed.
